@@ -170,7 +170,11 @@ func (w *World) translate(fn *ssa.Function, c *Contract) (vc *VC, err error) {
 			vc.NOblig++
 			// an established postcondition may serve as a lemma for the later ones
 			// (sound: the conjunction of all of them is what is claimed)
-			as := Item{Kind: itAssume, Text: fmt.Sprintf("(assert %s)", it.Text)}
+			lemma := it.Text
+			if as2 := mkAndNonEmpty(fs2A(fs)); as2 != "" {
+				lemma = "(and " + it.Text + " " + as2 + ")"
+			}
+			as := Item{Kind: itAssume, Text: fmt.Sprintf("(assert %s)", lemma)}
 			if it.AltU != "" {
 				as.AltU = fmt.Sprintf("(assert %s)", it.AltU)
 			}
@@ -984,4 +988,21 @@ func (t *Tr) modsOfType(ty types.Type, set map[string]bool) {
 	default:
 		set[cellHeapName(ty)] = true
 	}
+}
+
+func fs2A(fs []Cl) []string {
+	var out []string
+	for _, f := range fs {
+		if f.A != "" {
+			out = append(out, f.A)
+		}
+	}
+	return out
+}
+
+func mkAndNonEmpty(parts []string) string {
+	if len(parts) == 0 {
+		return ""
+	}
+	return mkAnd(parts...)
 }
